@@ -81,7 +81,8 @@ def run(ctx):
         ctx.violation("C08.a", send.qual, "LAN.send has no loop that transmits the request", file=file, construct="retry loop")
         return
     ctx.count("loops")
-    names = counter_names(loop)
+    from ..retry import loop_budget, loop_env
+    names = loop_budget(send_owner, loop)
     if len(names) != 1:
         raise AnalysisError(f"{send.qual}: retry loop condition `{norm(loop.test)}` does not test a single counter")
     ctr = names[0]
@@ -97,7 +98,7 @@ def run(ctx):
         return None
     for R in BUDGETS:
         ex = Explorer(prog, send_owner, classify, {ctr: R})
-        paths = ex.run([loop], {ctr: R}, ())
+        paths = ex.run([loop], loop_env(send_owner, loop, ctr, R), ())
         ctx.count("budgets")
         ctx.count("paths", len(paths))
         ws = [p.trace.count("write") for p in paths]
@@ -164,7 +165,7 @@ def run(ctx):
         ctx.violation("C08.a", auth.qual, "LAN.authenticate has no retry loop around the handshake", file=file, construct="retry loop")
     else:
         ctx.count("loops")
-        an = counter_names(aloop)
+        an = loop_budget(auth_owner, aloop)
         if len(an) != 1:
             raise AnalysisError(f"{auth.qual}: retry loop condition `{norm(aloop.test)}` does not test a single counter")
 
@@ -174,7 +175,7 @@ def run(ctx):
             return None
         for R in BUDGETS[:3]:
             ex = Explorer(prog, auth_owner, aclass, {an[0]: R})
-            paths = ex.run([aloop], {an[0]: R}, ())
+            paths = ex.run([aloop], loop_env(auth_owner, aloop, an[0], R), ())
             ctx.count("budgets")
             ctx.count("paths", len(paths))
             for p in paths:
